@@ -56,21 +56,23 @@ func c17Call(f hackpadfs.File, id string, c int) error {
 		_, err := f.Read(make([]byte, n))
 		return err
 	case 1:
-		_, err := hackpadfs.ReadAtFile(f, make([]byte, 1), verifInt64(id+".off"))
+		_, err := hackpadfs.ReadAtFile(f, make([]byte, verifChoice(id+".len", 2)), verifInt64(id+".off"))
 		return err
 	case 2:
-		_, err := hackpadfs.WriteFile(f, verifBytes(id+".p", 1))
+		// zero-length writes included: os.File refuses them on a closed file as well
+		_, err := hackpadfs.WriteFile(f, verifBytes(id+".p", verifChoice(id+".len", 2)))
 		return err
 	case 3:
 		off := verifInt64(id + ".off")
 		verifAssume(off <= 4)
-		_, err := hackpadfs.WriteAtFile(f, verifBytes(id+".p", 1), off)
+		_, err := hackpadfs.WriteAtFile(f, verifBytes(id+".p", verifChoice(id+".len", 2)), off)
 		return err
 	case 4:
 		off := verifInt64(id + ".off")
 		verifAssume(off >= -8)
 		verifAssume(off <= 8)
-		_, err := hackpadfs.SeekFile(f, off, verifChoice(id+".whence", 3))
+		// any whence value, valid or not (os.File reports ErrClosed before it looks at whence)
+		_, err := hackpadfs.SeekFile(f, off, verifInt(id+".whence"))
 		return err
 	case 5:
 		_, err := f.Stat()
